@@ -41,7 +41,8 @@ FLOORS = {'steps': 5000, 'staleness_opportunities': 200,
           'fresh_model_comparisons': 500, 'name_sets': 10,
           'hostile_steps': 20, 'derived_models': 30,
           'long_chain_steps': 60, 'reloads_into_the_same_model': 5,
-          'inputs_emptied': 20, 'unnormalised_sheet_names': 5}
+          'inputs_emptied': 20, 'unnormalised_sheet_names': 5,
+          'failing_chain_steps': 50}
 ANCHOR_FUNCS = {
     'xlcalculator/evaluator.py': ['Evaluator.evaluate',
                                   'Evaluator.set_cell_value',
@@ -549,6 +550,53 @@ def run_sampled(ctx, count):
                         'staleness_opportunities': H.stale_op})
 
 
+def run_failing_chain(ctx):
+    """a chain of formula cells whose far end fails while an input says so
+    (unknown function, text where a number is needed, an enormous digit
+    count): the head is evaluated (fails), the input is repaired, the head and
+    every link are evaluated again on the SAME Evaluator and give what a fresh
+    model of the current contents gives; and the other way round, repeatedly"""
+    from xlcalculator import Evaluator
+    variants = {
+        'unknown function': ('=IF(A1=1,NOSUCHFUNCTION(1),5)', 1, 0, 5.0),
+        'round to 1e200 digits': ('=ROUND(2.5,A1)+3', 1e200, 1, 5.5),
+        'text operand via user error': ('=IF(A1="x",BOOMX(A1),A1*5)', 'x', 1,
+                                        5.0),
+    }
+    for label, (far, bad, good, v_far) in variants.items():
+        cells = {'A1': good, 'B1': far, 'C1': '=B1+1', 'D1': '=C1*2',
+                 'E1': '=SUM(B1:D1)'}
+        ev = Evaluator(subject.compile_dict(cells))
+        want_good = {'B1': v_far, 'C1': v_far + 1, 'D1': (v_far + 1) * 2,
+                     'E1': v_far + v_far + 1 + (v_far + 1) * 2}
+        log = []
+        for step, state in enumerate(('good', 'bad', 'good', 'bad', 'good')):
+            ev.set_cell_value('Sheet1!A1', good if state == 'good' else bad)
+            for a in ('D1', 'E1', 'C1', 'B1'):
+                got = subject.outcome_of(lambda: ev.evaluate(f'Sheet1!{a}'))
+                ctx.event('steps')
+                ctx.event('failing_chain_steps')
+                log.append(f'[{state}] evaluate({a}) -> {str(got)[:80]}')
+                if state == 'bad':
+                    ok = got[0] == 'raised' or (
+                        got[0] == 'value' and got[1][0] == 'err')
+                else:
+                    ok = got == ('value', ('num', float(want_good[a])))
+                ctx.case(('failing-chain', label, state, a, step))
+                if not ok:
+                    ctx.fail(f'chain B1 {far} <- C1 <- D1, E1=SUM(B1:D1) '
+                             f'({label}), A1 now {state}: evaluate({a}) -> '
+                             f'{str(got)[:200]}, a fresh model gives '
+                             f'{"a failure" if state == "bad" else want_good[a]}'
+                             f' (history {log[-6:]})',
+                             {'cells': cells, 'history': log[-12:],
+                              'state': state, 'cell': a,
+                              'observed': str(got)[:300]},
+                             monitor='fresh-model-equivalence',
+                             group=f'failing-chain:{label}:{state}')
+                    break
+
+
 def run_long_chains(ctx):
     """a chain of 130 / 180 formula cells: evaluate its head, re-assign the
     input at its far end, evaluate the head (and cells in the middle) again"""
@@ -594,5 +642,6 @@ def run(ctx):
     COMPUTED.install()
     if ctx.shard in (0, 5, 10) or thorough:
         run_long_chains(ctx)
+        run_failing_chain(ctx)
     run_exhaustive(ctx, 5 if thorough else 4)
     run_sampled(ctx, (3000 if thorough else 96) // ctx.nshards)
